@@ -384,19 +384,24 @@ func (p *wkbParser) parseGeometryCollection(ctype CoordinatesType) (GeometryColl
 	if uint64(n)*5 > uint64(len(p.body)) {
 		return GeometryCollection{}, wkbSyntaxError{"unexpected EOF"}
 	}
-	geoms := make([]Geometry, n)
+	// The children are appended one by one rather than the slice being sized
+	// from the count up front. Collections can be nested, and each nested
+	// header only consumes 9 bytes, so sizing every level from its count
+	// would reserve memory that is quadratic in the length of the input.
+	var geoms []Geometry
 	for i := uint32(0); i < n; i++ {
-		geoms[i], err = p.inner()
+		g, err := p.inner()
 		if err != nil {
 			return GeometryCollection{}, err
 		}
-		if geoms[i].CoordinatesType() != ctype {
+		if g.CoordinatesType() != ctype {
 			err := mismatchedGeometryCollectionDimsError{
 				ctype,
-				geoms[i].CoordinatesType(),
+				g.CoordinatesType(),
 			}
 			return GeometryCollection{}, err
 		}
+		geoms = append(geoms, g)
 	}
 	return NewGeometryCollection(geoms), nil
 }
